@@ -529,6 +529,11 @@ def run_race(case: dict, stats: Stats | None = None) -> dict:
         stats.group("l2_outcomes", "/".join(sorted(f"{o['status']}:{o.get('code') or ''}" for o in outs)))
         if len(done_installs) >= 1 and len({a for a, _ in abstract}) > 1:
             stats.inc("l2_nontrivial")
+            if any(o.get("code") == "E_HASH" for o in outs):
+                stats.sample("l2_run", {"writers": [f"{w['entry']}/{w['mode']}/{'bh' if w.get('bh') else 'nobh'}" for w in writers],
+                                        "abstract_order": trace, "schedule_tape": list(tape.values)[:40],
+                                        "target_ops": [op.brief(root) for op in sim.events if op.path == target or op.path2 == target
+                                                       or op.name == "flock"][:40]}, cap=1)
         for k_, v_ in sim.fault_counts.items():
             stats.group("fault_counts", k_, v_)
         for k_, v_ in sim.probes.items():
@@ -1032,8 +1037,8 @@ def main(tier: str, seed: int, args) -> int:
         "rule": "one evaluation = one sequential history (L1), one scheduled multi-writer run (L2) or one concurrent in-process batch (L3); "
                 "distinct_nontrivial = distinct L1 history shapes (step kind/base_hash kind/result per step) + distinct L2 abstract orders of "
                 "target reads and installs across writers with outcomes + distinct L3 (delivery order, result) shapes",
-        "samples": (stats.samples.get("violation_trace", [])[:1] + sorted(stats.sets.get("l2_target_orders", ()))[:3]
-                    + sorted(stats.sets.get("l1_history_shapes", ()))[:2]),
+        "samples": (stats.samples.get("l2_run", [])[:1] + sorted(stats.sets.get("l2_target_orders", ()))[-3:]
+                    + sorted(stats.sets.get("l1_history_shapes", ()), key=len)[-2:]),
         "units_done": done, "units_planned": len(us),
         "runs_per_hour": int(runs / wall * 3600) if wall else 0,
         "l1_histories": c.get("l1_histories", 0), "l1_steps": c.get("l1_steps_total", 0),
